@@ -171,12 +171,91 @@ def rule_rle_scope(ctx):
             ctx.ok(rid, key, "constructed once next to the DecoderRleMode it belongs to", nontrivial=True, fn=f)
 
 
+def rule_prevchan(ctx):
+    """a decoder that resets the predictor state without previous channels is never used for a tree that tests one"""
+    from .. import validation
+    from ..mirutil import Defs
+    from ..facts import op_local
+    rid = "R-PREVCHAN"
+    ctx.rule(rid, "properties 16 and above read samples of previous channels; PredictorState::reset(width, prev_channels, ..) decides which "
+                  "previous channels exist, and a missing one reads as 0.  Every function that resets with an *empty* previous-channel "
+                  "list must be unable to evaluate such a property: it decodes a single leaf (no decisions), or it decodes a "
+                  "SimpleMaTable and FlatMaTree::simple_table() refuses (returns None for) tables whose decision property is >= 16")
+    md = ctx.prog.crate("jxl_modular")
+    sites = []
+    for f in md.fn_list:
+        if f.kind == "Promoted":
+            continue
+        d = None
+        for b, t in f.calls():
+            c = callee(t)
+            if not c or not ("predictor::PredictorState::<" in c["fn"] and c["fn"].endswith(">::reset")) or len(t[2]) < 3:
+                continue
+            if d is None:
+                d = Defs(f)
+            # is the previous-channel argument a constant empty slice?
+            l = op_local(t[2][2])
+            empty = False
+            seen = set()
+            while l is not None and l not in seen:
+                seen.add(l)
+                df = d.single(l)
+                if not df or df[2] != "assign":
+                    break
+                rv = df[3][2]
+                o = rv[1] if rv[0] == "use" else (rv[2] if rv[0] == "cast" else None)
+                if rv[0] == "ref":
+                    l = rv[2][0]
+                    continue
+                if o is None:
+                    break
+                if o[0] == "k" and isinstance(o[1], dict):
+                    empty = "; 0]" in str(o[1].get("ty", ""))
+                    break
+                p = op_place(o)
+                l = p[0] if p is not None else None
+            sites.append((f, b, t, empty))
+    ctx.count(rid + ".reset-sites", len(sites))
+    ctx.floor(rid + ".reset-sites", 3)
+    st_fn = next((g for g in md.fn_list if g.path.endswith("FlatMaTree::simple_table")), None)
+    guard = None
+    if st_fn is not None:
+        nones = validation.none_return_blocks(st_fn)
+        for c in validation.checks(st_fn, errs=nones):
+            txt = validation.norm(c["subject"], c["op"], c["other"])
+            if c["op"] in (">", ">=") and isinstance(c["other"], int) and "prop" in str(c["subject"]):
+                k = c["other"] if c["op"] == ">=" else c["other"] + 1
+                if k <= 16:
+                    guard = txt
+    for f, b, t, empty in sites:
+        ctx.seen(f)
+        key = "reset:%s" % f.path
+        if not empty:
+            ctx.ok(rid, key, "resets with the previous channels it was given", fn=f)
+            continue
+        tys = [f.local_ty(i) for i in range(1, f.argc + 1)]
+        if any("SimpleMaTable" in x for x in tys):
+            if guard:
+                ctx.ok(rid, key, "empty previous channels; simple_table() refuses tables on previous-channel properties (`%s` -> None)" % guard,
+                       nontrivial=True, fn=f)
+            else:
+                ctx.bad(rid, key + "|table-on-prev-channel", "%s resets the predictor state without previous channels and decodes a SimpleMaTable, but "
+                        "FlatMaTree::simple_table() does not refuse tables whose decision property is >= 16: such a property always reads 0, the "
+                        "wrong context is chosen and a valid lossless image fails to decode or decodes wrongly" % f.path, fn=f, pos=t[-2])
+        elif not any("FlatMaTree" in x for x in tys) and not any("FlatMaTree" in l[0] for l in f.locals):
+            ctx.ok(rid, key, "empty previous channels; no MA tree with decisions is evaluated here (single leaf / no tree)", nontrivial=True, fn=f)
+        else:
+            ctx.bad(rid, key + "|general-tree-without-prev", "%s resets the predictor state without previous channels but is not restricted to "
+                    "single-leaf or refused-table trees" % f.path, fn=f, pos=t[-2])
+
+
 def main(pid, tier, repo=None):
     ctx = Ctx(pid, tier, configs=("workspace",), repo=repo)
     specconst.run(ctx, pid, floor=2)
     enummap.run(ctx, pid)
     rule_chansplit(ctx)
     rule_rle_scope(ctx)
+    rule_prevchan(ctx)
     ctx.not_decided("that every decoded sample equals the encoded integer: predictors (incl. the self-correcting one), context-tree lookup, "
                     "the specialised fast paths agreeing with the general path, RLE/LZ77 state across channels, inverse RCT / palette / "
                     "squeeze arithmetic, group layout")
